@@ -135,6 +135,17 @@ func TestC22(t *testing.T) {
 		c.labels(rec)
 		rec.LabelN("plans_run", nplans)
 		rec.LabelIf(len(strategies) >= 2, "strategies>=2")
+		if c.multiFixedLeading() {
+			rec.Label("multi_fixed_on_leading_index_col")
+			seq := false
+			for s := range strategies {
+				if strings.Contains(s, "project-seq") || strings.Contains(s, "summarize-seq") {
+					seq = true
+				}
+			}
+			rec.LabelIf(seq, "seq_strategy_above_multi_fixed")
+			rec.LabelIf(c.hasOp("project", "remove", "summarize"), "grouping_above_multi_fixed")
+		}
 		cls := "query"
 		if len(c.ops) > 0 {
 			cls = "query_" + c.ops[0]
